@@ -31,7 +31,7 @@ let hexval c = match c with
   | _ -> failwith "hex"
 let unhex (s : string) : string =
   let n = S.length s / 2 in
-  S.init n (fun i -> Char.chr (hexval s.[2*i] * 16 + hexval s.[2*i+1]))
+  S.init n (fun i -> Char.chr (hexval (S.get s (2*i)) * 16 + hexval (S.get s (2*i+1))))
 let hex (s : string) : string =
   let b = Buffer.create (2 * S.length s) in
   S.iter (fun c -> Buffer.add_string b (Printf.sprintf "%02x" (Char.code c))) s; Buffer.contents b
